@@ -131,7 +131,7 @@ int main(int argc, char** argv) {
     std::cout << "\nSTEPS " << S.steps << "\n";
     for (auto& nt : S.notes) std::cout << "H " << nt.first << " " << nt.second << "\n";
     for (auto& e : S.log) {
-        std::cout << "E " << e.step << " " << e.tid << " " << e.kind << " " << e.obj << " " << hx(e.addr) << " "
+        std::cout << "E " << e.seq << " " << e.tid << " " << e.kind << " " << e.obj << " " << hx(e.addr) << " "
                   << hx(e.val) << " " << e.ok << "\n";
     }
     destroy();
